@@ -163,6 +163,8 @@ func (d *duplexHTTPCall) CloseRead() error {
 		return nil
 	}
 	if err := discard(d.response.Body); err != nil {
+		// Even if we can't drain the body, we still need to release it.
+		_ = d.response.Body.Close()
 		return wrapIfRSTError(err)
 	}
 	return wrapIfRSTError(d.response.Body.Close())
